@@ -3,6 +3,7 @@ SPECIFICATION Spec
 CONSTANTS
   Shapes <- ShapesS
   StepVals <- Steps12
+  Broadcast = FALSE
   MaxSlices = 3
   MaxWrites = 4
   MaxReshapes = 1
